@@ -10,6 +10,8 @@ mod c16;
 mod c10;
 mod tables;
 mod runner;
+mod pgen;
+mod c15;
 
 use std::path::PathBuf;
 
@@ -69,6 +71,7 @@ fn main() {
             }
         }
         "c01" => c01::run(&args),
+        "c15" => c15::run(&args),
         "c06" => c06::run(&args),
         "c16" => c16::run(&args),
         "c10" => c10::run(&args),
